@@ -26,6 +26,11 @@ CHECKS.append(
      "technique": "exhaustive static cross-check of every attribute definition against the dictionary + property-based testing (Hypothesis) of attribute subsets with an independent reference parser as encode oracle and structural decode/round-trip oracles",
      "text": "All typed message classes and grouped containers are discovered structurally; every avp_def entry is cross-checked (dictionary entry exists, container => Grouped, no duplicate attribute or AVP); every usable definition is individually set, encoded and decoded at least once per run (enforced: 100% or exit 2), plus random subsets / all / none, list attributes with 0..3 elements, containers nested to depth 4 and undeclared extra AVPs. Encoded bytes are parsed by the reference parser and compared per definition (count, flags, payload, order within a key); decode must restore every value; encode-decode-encode == encode. Untyped commands: attribute exposure by normalised name, repeats as lists, groups as nested objects.",
      "note": "Trusted: dv/refcodec.py; list-ness = list on a fresh instance or list[...] annotation; values valid for the dictionary type; AVP order across different definitions not demanded."})
+CHECKS.append(
+    {"id": "C04", "engine": "E1-refcodec", "category": "exploration", "design_ref": "DESIGN.md section 3 C04 + section 2 E6",
+     "technique": "fuzzing: Hypothesis-generated and structure-aware mutated inputs (quick) plus coverage-guided atheris/libFuzzer campaign (thorough), oracle inside the target: exception allow-list, deterministic linear work bound, cursor monotonicity",
+     "text": "Random bytes, every prefix of valid messages, bit flips, every length field (message/AVP/nested, from the reference parser's span map) x 9 boundary values, and per-type malformed payloads of every length 0..20 bare, under untyped commands, nested, and under every typed command class that declares such an AVP. Each input goes through Message.from_bytes (typed and plain) and Avp.from_bytes, then every reachable AVP's value getter and str(); only packer.Error / AvpDecodeError may be raised, work counters stay under a linear bound (non-termination becomes a deterministic verdict), the unpacker cursor advances and never passes the buffer. Thorough adds two atheris campaigns (empty and seeded corpus) with the same oracle in the target.",
+     "note": "Trusted: the allow-list reading of 'library decode errors' (packer.Error subclasses, AvpDecodeError); harness-installed counting wrappers; nesting walked to depth 16."})
 
 _TODO = "check not built yet in this session (planned, see DESIGN.md); not claimed until its machinery is committed"
 NOT_APPLICABLE = [{"property_id": f"C{n:02d}", "reason": _TODO} for n in range(2, 21) if f"C{n:02d}" not in {c["id"] for c in CHECKS}]
